@@ -26,6 +26,12 @@ def bounds(tier):
 def cases(tier, seed):
     for cid, specs in C.grouped(tier, seed, PER_CASE, families=FAMS, prefix="C03|"):
         yield cid, {"specs": specs, "tier": tier}
+    if tier == "quick":
+        # the larger fields are cheap for this property (one encoder + one distance computation per configuration): always include them
+        extra = [s for s in C.bch("thorough", seed) if s[2].get("mu", 0) in (5, 6) or "(31," in s[1] or "(63," in s[1]]
+        extra += [s for s in C.rs("thorough", seed) if s[2]["mu"] == 4]
+        for i in range(0, len(extra), 6):
+            yield f"C03|{extra[i][0]}|x{i // 6:03d}|{extra[i][1]}..", {"specs": extra[i:i + 6], "tier": tier}
 
 
 def component_of(p):
